@@ -83,3 +83,17 @@ PROPS["C13"] = {
     "outside": "nothing for the codon map; windows/chunks composition on longer sequences follows from C11",
     "explanation": "solver-exhaustive over codons x offsets",
 }
+
+PROPS["C04"] = {
+    "feature": "c04",
+    "tiers": tiers("C04"),
+    "mem_gb": 10,
+    "functions": ["TryFrom<&SeqSlice> for usize", "From<&SeqSlice> for u8", "From<Seq> for usize", "From<usize|u64> for Kmer", "From<&Kmer> for usize",
+                  "KmerStorage::{from_bitslice,to_bitarray} for usize/u64/u128", "TryFrom<&SeqSlice> for Kmer", "Seq::{from_raw,into_raw}", "ToOwned for SeqSlice"],
+    "bounds": {"all": "windows of 2-3 symbolic words at symbolic symbol offset and symbolic length (up to two symbols past what fits a word); "
+                      "k-mer integers fully symbolic below 2^(K*BITS) per listed (codec,K,storage); raw images: owned sequences of 1..64 Dna symbols "
+                      "built word-aligned, owned copies of 1..4-symbol windows at symbolic offset 0..60 (Dna) / 0..19 (Amino); from_raw on 1-2 symbolic words "
+                      "with symbolic count 0..words*64/BITS+2"},
+    "outside": "raw images of sequences produced by rev/comp/bitwise ops/remove are covered through their own checks' position-wise results plus the "
+               "alignment claim here for copies; images longer than two words",
+}
